@@ -7,7 +7,7 @@
 #![allow(clippy::cast_precision_loss)] // Acceptable for graph algorithm metrics
 
 use std::cmp::Ordering;
-use std::collections::{BinaryHeap, HashMap, HashSet};
+use std::collections::{BinaryHeap, HashMap};
 
 use serde::{Deserialize, Serialize};
 
@@ -217,7 +217,6 @@ impl GraphEngine {
             });
 
         let mut open_set = BinaryHeap::new();
-        let mut closed_set = HashSet::new();
         let mut g_scores: HashMap<u64, f64> = HashMap::new();
         let mut came_from: HashMap<u64, (u64, u64)> = HashMap::new();
 
@@ -232,7 +231,8 @@ impl GraphEngine {
         let mut nodes_explored = 0;
 
         while let Some(current) = open_set.pop() {
-            if closed_set.contains(&current.node_id) {
+            // stale queue entry: a cheaper way to this node was found after it was pushed
+            if current.g_score > g_scores.get(&current.node_id).copied().unwrap_or(f64::INFINITY) {
                 continue;
             }
 
@@ -247,8 +247,6 @@ impl GraphEngine {
                 });
             }
 
-            closed_set.insert(current.node_id);
-
             let neighbors = self.neighbors(
                 current.node_id,
                 config.edge_type.as_deref(),
@@ -257,10 +255,6 @@ impl GraphEngine {
             )?;
 
             for neighbor in neighbors {
-                if closed_set.contains(&neighbor.id) {
-                    continue;
-                }
-
                 let weight = self.get_astar_edge_weight(
                     current.node_id,
                     neighbor.id,
